@@ -37,6 +37,13 @@ const sigFromjsonDV = "fromjson-result-is-a-decode-value"
 
 func (d *differ) fromjsonDecodeValue(prog string, input any, ref, fo Obs) {
 	r := d.r
+	if d.pair != "" {
+		r.Count("fromjson_decode_value_primitive_differences", 1)
+		r.Violate("fromjson-dv:"+d.pair,
+			fmt.Sprintf("a value returned by fromjson (a decode value) deviates from the JSON value it stands for in this primitive: program `%s` input %s: reference gojq -> %v ; fq -> %v ; the difference disappears with `fromjson | tovalue`", prog, canon(input), ref, fo),
+			Case{Section: d.section, Program: prog, Input: canon(input)})
+		return
+	}
 	r.Count("fromjson_decode_value_differences", 1)
 	n := r.Counter("fromjson_decode_value_differences")
 	if n == 1 {
